@@ -154,7 +154,7 @@ def run_big(spec, ctx):
         if done >= spec['count']:
             break
         p = progen.gen_program(rng, {'depth': 2, 'max_stmts': 2, 'top_stmts': (500, 350)[i % 2], 'stat_bias': bias,
-                                     'exotic_numbers': True, 'exotic_strings': True, 'goto': False})
+                                     'exotic_numbers': True, 'exotic_strings': True, 'goto': False, 'multiline_strings': False})
         src = layout.render(p, rng, style=rng.choice(('normal', 'lines', 'tight')))
         if src is None:
             ctx.monitor('generator_rejects')
